@@ -165,6 +165,7 @@ StreamsManagerBase<MAX_STREAMS> {
     pub fn cancel_all_streams(&self) {
         let used_streams = unsafe { &* self.used_streams.get() };
         // the list is rewritten in place, entry by entry, whenever a stream is created or dropped: walk it under the same lock
+        vp!("sm.cancelall.lock");
         ogre_sync::lock(&self.streams_lock);
         for stream_id in used_streams.iter() {
             vp!("sm.cancelall.read");
@@ -173,6 +174,7 @@ StreamsManagerBase<MAX_STREAMS> {
             }
             self.cancel_stream(*stream_id);
         }
+        vp!("sm.cancelall.unlock");
         ogre_sync::unlock(&self.streams_lock);
     }
 
